@@ -223,20 +223,24 @@ func mkMuxStall(l *logger, delay time.Duration, stall string, entered chan<- str
 	})
 	// a second handler of every kind that accepts everything as well: it must never run (first match
 	// only); if it does, the envelope has been delivered twice
+	rec2 := func(kind, id string) {
+		g, i := splitID(id)
+		l.log(Event{K: "delivered", G: g, I: i, Kind: kind, Res: "second"})
+	}
 	m.MessageHandlerFunc(func(*lime.Message) bool { return true }, func(ctx context.Context, e *lime.Message, s lime.Sender) error {
-		rec("msg", e.ID, e.Metadata, textLen(e.Content))
+		rec2("msg", e.ID)
 		return nil
 	})
 	m.NotificationHandlerFunc(func(*lime.Notification) bool { return true }, func(ctx context.Context, e *lime.Notification) error {
-		rec("not", e.ID, e.Metadata, len(e.Metadata["body"]))
+		rec2("not", e.ID)
 		return nil
 	})
 	m.RequestCommandHandlerFunc(func(*lime.RequestCommand) bool { return true }, func(ctx context.Context, e *lime.RequestCommand, s lime.Sender) error {
-		rec("req", e.ID, e.Metadata, textLen(e.Resource))
+		rec2("req", e.ID)
 		return nil
 	})
 	m.ResponseCommandHandlerFunc(func(*lime.ResponseCommand) bool { return true }, func(ctx context.Context, e *lime.ResponseCommand, s lime.Sender) error {
-		rec("resp", e.ID, e.Metadata, textLen(e.Resource))
+		rec2("resp", e.ID)
 		return nil
 	})
 	return m
